@@ -46,7 +46,7 @@ ASSUMPTIONS = [
     "objects for tuplet groups and symbolic durations on every note (what the two writers can express); the "
     "comparison is per note object (onset, duration in quarters, MIDI pitch, staff), ties not merged",
 ]
-CHUNK = 40
+CHUNK = 8  # the kern writer needs 0.1-0.3 s per part: small work items keep all workers busy in the small kern spaces
 
 # ---------------------------------------------------------------------------------------------
 # alphabets
@@ -752,7 +752,7 @@ def _tie_into_chord(ms):
 # ---------------------------------------------------------------------------------------------
 # sub-spaces: export -> load
 
-TYPE_NAME = {0: "breve", 1: "whole", 2: "half", 4: "quarter", 8: "eighth", 16: "16th", 32: "32nd"}
+TYPE_NAME = {0: "breve", 1: "whole", 2: "half", 4: "quarter", 8: "eighth", 16: "16th", 32: "32nd", 64: "64th"}
 
 
 def part_spec(doc):
@@ -764,6 +764,12 @@ def part_spec(doc):
         for n in p["notes"]:
             den = _lcm(den, n[0].denominator)
             den = _lcm(den, n[1].denominator)
+    for st in doc["staves"]:
+        for ly in st["layers"]:
+            for m in ly["m"]:
+                for leaf, tup in M.flatten(m):
+                    if leaf["k"] == "s":  # a gap in a voice: its ends are timeline positions too
+                        den = _lcm(den, M.leaf_dur(leaf, tup).denominator)
     divs = max(den, 1) * (doc.get("divs_mult") or 1)
     objs = []
     objs.append({"k": "ts", "s": 0, "beats": doc["meter"][0], "beat_type": doc["meter"][1]})
@@ -800,11 +806,18 @@ def part_spec(doc):
                             last = b
                             continue
                         d = M.leaf_dur(e, tup)
+                        if e["k"] == "s":
+                            # a gap: the voice has no object here (save_kern fills it with a rest of its own)
+                            open_t.clear()
+                            p += d
+                            continue
                         sym = {"type": TYPE_NAME[e["v"]]}
                         if e.get("d"):
                             sym["dots"] = e["d"]
                         if tup:
                             sym["actual_notes"], sym["normal_notes"] = tup
+                        if e.get("nosym"):
+                            sym = None  # the note value is left to the library (estimated from the numeric duration)
                         s_t, e_t = int(p * divs), int((p + d) * divs)
                         if e["k"] == "r":
                             nid[0] += 1
@@ -1013,6 +1026,99 @@ def g_roundtrip_staffmove(fmt, tier, seed):
     yield from family(STAFF_OPTS[:2], 3, 2, (1,))
 
 
+# note values the library chooses itself: every single value (type x dots) of these lists
+EST_VALUES = [0, 1, 2, 4, 8, 16, 32, 64]
+EST_DOTS = [0, 1, 2, 3]
+EST_PAIR_VALUES = [1, 2, 4, 8, 16]
+KERN_EST_PAIR_BLOCKS = 40  # quick tier, kern writer: one hash block of the 2-event sequences
+KERN_GAP_BLOCKS = 32  # quick tier, kern writer: one hash block of the placements outside the fixed core
+
+
+def g_roundtrip_estimated(fmt, tier, seed):
+    """single-voice parts whose notes, chords and rests are created WITHOUT a symbolic duration: the writers take the
+    note value from GenericNote.symbolic_duration / estimate_symbolic_duration, i.e. from the numeric duration.  Every
+    duration that is one note value (breve..64th, 0..3 dots) occurs, alone and in pairs, followed by a quarter note with
+    an explicit value whose onset shows the length that was written for a rest"""
+    def mk(evs):
+        return {"f": "rt", "w": fmt, "doc": mei_doc([[evs]])}
+
+    for k in ("n", "c", "r"):
+        for v in EST_VALUES:
+            for d in EST_DOTS:
+                yield mk([lf(k, v, d, 0, nosym=True), lf("n", 4, 0, 3)])
+    alpha = [(k, v, d) for k in ("n", "r") for v in EST_PAIR_VALUES for d in EST_DOTS]
+    nb = 1 if tier == "thorough" else (KERN_EST_PAIR_BLOCKS if fmt == "kern" else 4)
+    for s in seqs(alpha, 2):
+        c = mk([lf(k, v, d, i, nosym=True) for i, (k, v, d) in enumerate(s)] + [lf("n", 4, 0, 3)])
+        if nb == 1 or block_of(c, nb) == seed % nb:
+            yield c
+
+
+def _single_values(limit):
+    """{length in 16ths: (value, dots)} of the note values shorter than `limit` 16ths that lie on the 16th grid"""
+    out = {}
+    for v in (1, 2, 4, 8, 16):
+        for d in EST_DOTS:
+            u = M.leaf_dur({"k": "s", "v": v, "d": d}) * 4
+            if u.denominator == 1 and u < limit:
+                assert int(u) not in out
+                out[int(u)] = (v, d)
+    return out
+
+
+def _plain_notes(units, rev, i0):
+    """`units` 16ths filled with notes of plain values (explicit symbolic durations), long to short or reversed"""
+    seq = []
+    for v, u in ((1, 16), (2, 8), (4, 4), (8, 2), (16, 1)):
+        while units >= u:
+            seq.append(v)
+            units -= u
+    if rev:
+        seq.reverse()
+    return [lf("n", v, 0, i0 + i) for i, v in enumerate(seq)]
+
+
+def g_roundtrip_gaps(tier, seed):
+    """parts with a voice that does not fill its measure: it enters `a` 16ths after the barline and/or stops `c` 16ths
+    before the next one (save_kern completes such a voice with rests of its own, fill_rests); a and c run over every
+    length that is one note value (0 = no gap).  The voice is alone in the part or next to a voice of whole-measure
+    notes (on the same or on a second staff); in the other measure it is complete or absent altogether"""
+    combos = [(mi, other, comp, staff) for comp in (True, False) for mi in (0, 1) for other in ("full", "absent")
+              for staff in ((1, 2) if comp else (1,))]
+    for meter in ((4, 4), (3, 4)):
+        L = int(M.measure_len(meter) * 4)
+        whole = {16: (1, 0), 12: (2, 1)}[L]
+        single = _single_values(L)
+        lens = [0] + sorted(single)
+        idx = 0
+        for a in lens:
+            for c in lens:
+                if a + c >= L or (a == 0 and c == 0):
+                    continue
+                for ci, (mi, other, comp, staff) in enumerate(combos):
+                    layers2 = []
+                    for m in range(2):
+                        if m == mi:
+                            evs = ([lf("s", *single[a])] if a else []) + _plain_notes(L - a - c, (a + c) % 2, 2 + m) \
+                                + ([lf("s", *single[c])] if c else [])
+                        elif other == "full":
+                            evs = [lf("n", whole[0], whole[1], 2 + m)]
+                        else:
+                            evs = [lf("s", whole[0], whole[1])]
+                        layers2.append(evs)
+                    staves = [{"n": 1, "clef": ["G", 2], "layers": []}]
+                    if comp:
+                        staves[0]["layers"].append({"n": 1, "m": [[lf("n", whole[0], whole[1], m)] for m in range(2)]})
+                    if staff == 2:
+                        staves.append({"n": 2, "clef": ["F", 4], "layers": []})
+                    staves[staff - 1]["layers"].append({"n": 2 if comp else 1, "m": layers2})
+                    case = {"f": "rt", "w": "kern", "doc": {"meter": list(meter), "key": [0, None], "nm": 2, "staves": staves, "mei": {}}}
+                    core = meter == (4, 4) and ci == idx % len(combos)
+                    if tier == "thorough" or core or block_of(case, KERN_GAP_BLOCKS) == seed % KERN_GAP_BLOCKS:
+                        yield case
+                idx += 1
+
+
 # file names: characters that are legal in a (POSIX) file name but special in URLs, shells, globs or format strings,
 # further dots, an inner extension of another format
 NAME_STEMS = ["C#_minor", "why?", "theme;var1", "a b", "a&b=c", "100%", "a%20b", "x.mid#2", "x.musicxml?raw=true", "a+b",
@@ -1113,6 +1219,18 @@ def spaces(tier, seed):
               "(save_mei raises there)" if "mei-export-empty-staff" in FIXES_PENDING else ""), "mei"),
         sp("roundtrip-kern-staffmove", g_roundtrip_staffmove, "the same parts (every voice/staff pair becomes a spine), save_kern -> load_kern; "
            "quick: hash block VERIF_SEED of %d, thorough: all" % KERN_STAFFMOVE_BLOCKS, "kern"),
+        sp("roundtrip-mei-estimated", g_roundtrip_estimated, "1 voice, notes/chords/rests built WITHOUT symbolic_duration (the writer takes the note "
+           "value the library estimates from the numeric duration), save_mei -> load_mei: every {note,chord,rest} x {breve..64th} x {0..3 dots} "
+           "+ a quarter note with explicit value; all pairs over {note,rest} x {whole..16th} x {0..3 dots} + the quarter (quick: hash block "
+           "VERIF_SEED of 4)", "mei"),
+        sp("roundtrip-kern-estimated", g_roundtrip_estimated, "the same parts, save_kern -> load_kern (quick: single events complete, pairs: hash "
+           "block VERIF_SEED of %d)" % KERN_EST_PAIR_BLOCKS, "kern"),
+        sp("roundtrip-kern-gaps", g_roundtrip_gaps, "save_kern -> load_kern of 2-measure parts in 4/4 and 3/4 with a voice that enters a 16ths "
+           "after the barline and stops c 16ths before the next one, a and c over every length that is ONE note value (1,2,3,4,6,7,8,12,14,15 "
+           "16ths; 0 = none; gaps that need two tied values cannot be written by fill_rests as one rest and are outside), the sounding rest "
+           "filled with plain values (explicit); x gap in measure 1/2 x other measure complete/absent x {alone, beside a voice of whole-measure "
+           "notes on the same / another staff} (12 placements); quick: every (a, c) of 4/4 with one placement (cycled) + hash block VERIF_SEED "
+           "of %d of the rest; the MEI writer has no rest filling (gaps are not expressible there)" % KERN_GAP_BLOCKS),
         sp("dispatch", g_dispatch, "load_score on .mei/.MEI/.Mei/.krn/.kern/.KRN/.Kern; wrong extension for the content"),
         sp("dispatch-names", g_dispatch_names, "load_score on local files: %d file-name stems with characters special in URLs/shells/globs, inner "
            "dots and inner extensions x {.mei,.MEI,.krn,.kern,.KRN}; %d directory names; given as str, pathlib.Path or relative path"
